@@ -98,6 +98,8 @@ def expected(ld):
         if not (uva or uvk):
             continue
         decls.append((j, cs, uva, uvk, hva, hvk))
+    if pr.context == 'ifelse_unres':
+        return [pl], 'unresolvable-callee'
     if not decls:
         return [pl], 'nothing-forwarded'
     outs = []
@@ -111,6 +113,8 @@ def expected(ld):
             res = S.merge(*sigs)
         except ValueError:
             return [pl], 'declaration-impossible'
+        except Exception as e:  # noqa: the algebra may only fail with ValueError (C15); reported by the caller
+            return [pl], 'algebra-raises-%s' % type(e).__name__
         if pr.route == 'method':
             try:
                 res = S.mask(res, 1)
@@ -180,7 +184,7 @@ def hidden_choices(ld):
 def runs_somehow(ld, n, K):
     """Does the call succeed for some branch-independent choice of the hidden arguments?  For two-branch programs
     both branches must succeed (FLAG True and False)."""
-    flags = (True, False) if ld.prog.context == 'ifelse' else (True,)
+    flags = (True, False) if ld.prog.context in ('ifelse', 'ifelse_unres') else (True,)
     mod = ld.module
     try:
         for fl in flags:
